@@ -66,7 +66,7 @@ func (c *Ctx) mbLocks(withMailbox *ssa.Function, fMbMu *types.Var) *mbLockModel 
 				if !ok {
 					return
 				}
-				for _, rv := range ret.Results {
+				for _, rv := range eng.ReturnResults(ret) {
 					n++
 					if !m.isReleaseValue(rv) {
 						all = false
